@@ -32,6 +32,15 @@ class VerifTypedError(exceptions.JsonRpcError):
     message = 'typed'
 
 
+class VerifOwnCtorError(exceptions.JsonRpcError):
+    """a typed error class with a constructor of its own (keyword-only): it cannot be re-created from its args"""
+    code = 3998
+    message = 'own'
+
+    def __init__(self, *, code, message, data=UNSET):
+        super().__init__(code=code, message=message, data=data)
+
+
 # how the method raises its protocol error: through the base class, or through a typed class whose instance overrides code / message
 class CtxLocal:
     """attributes kept per thread AND per asyncio task (context variables): a task started by the dispatcher inherits the
@@ -58,7 +67,7 @@ class CtxLocal:
 
 
 CUR = CtxLocal()
-PERR_CLASSES = [exceptions.JsonRpcError, exceptions.ServerError, VerifTypedError]
+PERR_CLASSES = [exceptions.JsonRpcError, exceptions.ServerError, VerifTypedError, VerifOwnCtorError]
 
 
 EXC = {'ValueError': ValueError, 'KeyError': KeyError, 'TypeError': TypeError, 'AssertionError': AssertionError,
@@ -383,7 +392,7 @@ def call(d, is_async, text):
 def run(scn):
     ev = []
     h = zlib.crc32(json.dumps(scn, sort_keys=True).encode())       # variants by content, not by position
-    cfg = dict(scn['cfg'], _style='view' if h % 2 else 'func', _perrcls=(h // 2) % 3)
+    cfg = dict(scn['cfg'], _style='view' if h % 2 else 'func', _perrcls=(h // 2) % 4)
     d = build(cfg, ev)
     text = render(scn['text'])
     try:
